@@ -3,9 +3,17 @@ Model driver for the compiler core (C01 layer 5, correspondence K2).
 Request:  `compile <local_count> <expr-sexp>`
 Response: `regs=<NewFrame count> ret=<result register> | <instr> ; <instr> ; …`  or `none`
 (the model's `compile` with `Mode.any` from a fresh main frame, flattened).
+
+Request:  `compileS <local_count> <stmt-sexp> <expr-sexp>` — a main block of statements (loops,
+`break` / `continue`, `if` with statement branches; `Model/CompileLoop.lean`) followed by a final
+expression; same response format, the stream is `flattenL (compileS s)` followed by the final
+expression's code (`compileProg`); `JumpBack -k` goes back `k` instructions counted from the
+instruction after the `JumpBack`.
+  stmt ::= (expr E) | (sseq S S) | (site E S S) | (sifthen E S) | (while E S) | (until E S)
+         | (loop S) | (break) | (continue)
 -/
 import KotoVerif.Common.Proto
-import KotoVerif.Model.Compile
+import KotoVerif.Model.CompileLoop
 
 open KotoVerif KotoVerif.Proto KotoVerif.Compile
 
@@ -59,8 +67,36 @@ def flatStr : Flat → String
   | .jumpIfTrue r k => s!"JumpIfTrue {r} +{k}"
   | .jump k => s!"Jump +{k}"
 
+partial def parseStmt : Sexp → Option Stmt
+  | .list [.atom "expr", e] => do pure (.expr (← parseExpr e))
+  | .list [.atom "sseq", a, b] => do pure (.seq (← parseStmt a) (← parseStmt b))
+  | .list [.atom "site", c, t, e] => do pure (.ite (← parseExpr c) (← parseStmt t) (← parseStmt e))
+  | .list [.atom "sifthen", c, t] => do pure (.ifThen (← parseExpr c) (← parseStmt t))
+  | .list [.atom "while", c, b] => do pure (.whileS (← parseExpr c) (← parseStmt b))
+  | .list [.atom "until", c, b] => do pure (.untilS (← parseExpr c) (← parseStmt b))
+  | .list [.atom "loop", b] => do pure (.loopS (← parseStmt b))
+  | .list [.atom "break"] => some .brk
+  | .list [.atom "continue"] => some .cont
+  | _ => none
+
+def lflatStr : LFlat → String
+  | .op i => instrStr i
+  | .jumpIfFalse r k => s!"JumpIfFalse {r} +{k}"
+  | .jumpIfTrue r k => s!"JumpIfTrue {r} +{k}"
+  | .jump k => s!"Jump +{k}"
+  | .jumpBack k => s!"JumpBack -{k}"
+
 def handle (line : String) : String :=
   match parseLine line with
+  | [.atom "compileS", lc, s, e] =>
+    match lc.nat?, parseStmt s, parseExpr e with
+    | some lc, some s, some e =>
+      match compileProg s e lc with
+      | some (stream, out, F) =>
+        let ret := match out.reg with | some r => toString r | none => "-"
+        s!"regs={F.registersUsed} ret={ret} | " ++ " ; ".intercalate (stream.map lflatStr)
+      | none => "none"
+    | _, _, _ => "bad-request"
   | [.atom "compile", lc, e] =>
     match lc.nat?, parseExpr e with
     | some lc, some e =>
